@@ -473,6 +473,7 @@ func checkC20(c *km.Ctx) {
 	}
 
 	checkFlushPerEvent(c)
+	checkEventFieldsAgree(c, "R-C20-2")
 	// ---------- R-C20-4
 	checkHistory(c, s)
 	checkHistoryFileReplace(c)
@@ -979,4 +980,94 @@ func encodesEvent(g *ssa.Function) bool {
 		}
 	}
 	return false
+}
+
+// checkEventFieldsAgree: writer and reader of the event stream agree per event type. The monitor dispatches on the
+// type and reads, for each type, some fields of the event; a publisher that fills a field the reader of its type
+// never looks at (the service provider's URL under the web-login type) has published a different event from the
+// one it was asked to publish.
+func checkEventFieldsAgree(c *km.Ctx, rule string) {
+	notify := c.MustFunc(rule, "eventmon/monitord", "(*Monitor).notify")
+	if notify == nil {
+		return
+	}
+	reads := map[string]map[string]bool{}
+	km.Instrs(notify, func(in ssa.Instruction) {
+		var base ssa.Value
+		var fld string
+		switch x := in.(type) {
+		case *ssa.FieldAddr:
+			base, fld = x.X, fieldNameOf(x)
+		case *ssa.Field:
+			base, fld = x.X, km.RecordedField(x.X.Type(), structOf(x.X.Type()).Field(x.Field).Name())
+		default:
+			return
+		}
+		if !strings.HasSuffix(km.NamedTypeOf(base.Type()), "proto/eventmon.EventV0") || fld == "Type" {
+			return
+		}
+		for _, k := range c.F.At(in) {
+			for _, f := range k.List() {
+				if f.Op != token.EQL || f.X == nil || !mentionsField(f.X, "Type") {
+					continue
+				}
+				if cs, ok := km.ConstString(f.Y); ok {
+					if reads[cs] == nil {
+						reads[cs] = map[string]bool{}
+					}
+					reads[cs][fld] = true
+				}
+			}
+		}
+	})
+	if len(reads) < 3 {
+		c.R.AnchorLost(rule, sprintf("per-type field reads in the monitor's dispatch (found %d types)", len(reads)))
+		return
+	}
+	n := 0
+	for _, fn := range c.P.AllFuncs {
+		if fn.Pkg == nil || fn.Pkg.Pkg.Path() != km.ModPath+"/keymasterd/eventnotifier" {
+			continue
+		}
+		// event literals of this function: allocation -> field -> stored value
+		lits := map[*ssa.Alloc]map[string]ssa.Value{}
+		var order []*ssa.Alloc
+		km.Instrs(fn, func(in ssa.Instruction) {
+			st, ok := in.(*ssa.Store)
+			if !ok {
+				return
+			}
+			fa, ok := st.Addr.(*ssa.FieldAddr)
+			if !ok || !strings.HasSuffix(km.NamedTypeOf(fa.X.Type()), "proto/eventmon.EventV0") {
+				return
+			}
+			a, ok := fa.X.(*ssa.Alloc)
+			if !ok {
+				return
+			}
+			if lits[a] == nil {
+				lits[a] = map[string]ssa.Value{}
+				order = append(order, a)
+			}
+			lits[a][fieldNameOf(fa)] = st.Val
+		})
+		for _, a := range order {
+			typ, ok := evalString(c, lits[a]["Type"], 0)
+			if lits[a]["Type"] == nil || !ok {
+				continue // the certificate publisher is handed its type
+			}
+			n++
+			var stray []string
+			for f := range lits[a] {
+				if f != "Type" && !reads[typ][f] {
+					stray = append(stray, f)
+				}
+			}
+			sort.Strings(stray)
+			c.R.Add(rule, km.FuncName(fn), "event of type "+typ, posOf(c, a), "every field the publisher fills is one the monitor reads for that type", sprintf("not read for this type: %v", stray), len(stray) == 0 && reads[typ] != nil)
+		}
+	}
+	if n == 0 {
+		c.R.AnchorLost(rule, "event literals with a constant type in the notifier")
+	}
 }
